@@ -75,14 +75,14 @@ CHECKS.update({
    note=GEN_NOTE),
  "C16": dict(engine="gencheck", category="fault_enumeration", design="DESIGN.md §2 C16",
    technique="fault injection: per language rule, injection sites enumerated over the real corpus through the independent model's syntax tree, a seed-chosen stratified subset applied as single textual edits, real generator run on scratch trees; oracle = the rule's exit status and a diagnostic naming the file",
-   text="28 rule variants (every rule of the statement, incl. a type missing for one of several versions and a version clash separated by another definition of the same name) are injected at sites spread over top level, struct members, if / else-if / else / optional bodies, tag_all files and paste_versions objects (10 sites per variant quick, 200 thorough out of 15-2200 candidates each); each must stop the generator with that rule's exit status; the unmodified tree must exit 0.",
+   text="30 rule variants (every rule of the statement, flag-with-signed-type and version-tags-overlap in addition, incl. a type missing for one of several versions and a version clash separated by another definition of the same name) are injected at sites spread over top level, struct members, if / else-if / else / optional bodies, tag_all files and paste_versions objects (10 sites per variant quick, 200 thorough out of 15-2200 candidates each); each must stop the generator with that rule's exit status; the unmodified tree must exit 0.",
    note=GEN_NOTE + " Each edit is constructed to break exactly one rule; sites whose type differs between the versions of a pasted object are skipped."),
 })
 
 CHECKS.update({
  "C09": dict(engine="gencheck", category="exploration", design="DESIGN.md §2 C09",
    technique="differential against an exact extremal-size analysis by the independent model (enumeration of every assignment of the tested definer variables), on the shipped corpus and on proptest-chosen batches of valid mutants of it (insert/retype/reorder members, resize arrays, add optional / else / else-if branches, change conditions, upcasts)",
-   text="For every container and namespace the IR's minimum_size / maximum_size / constant_sized and the guard literal of the generated read_inner are compared with the true extremal lengths the model computes over the whole conditional structure; about 2,700 containers on the shipped tree and the same again on each mutant tree (6 trees x ~55 edits quick, 60 x ~75 thorough). A failing mutant batch is bisected to the single edit.",
+   text="For every container and namespace the IR's minimum_size / maximum_size / constant_sized and the guard literal of the generated read_inner are compared with the true extremal lengths the model computes over the whole conditional structure; about 2,700 containers on the shipped tree and the same again on each mutant tree (6 trees x ~55 edits quick, 240 x ~75 thorough). A failing mutant batch is bisected to the single edit.",
    note=GEN_NOTE + " Exact for enum conditions; flag conditions enumerate all subsets of the tested bits (capped at 16 bits, counted). Lengths of compressed payloads are only bounded from below and not judged."),
  "C10": dict(engine="gencheck", category="exploration", design="DESIGN.md §2 C10",
    technique="RFC 8927 validator written from the RFC + field-by-field differential of the emitted IR against the independent model's reading of the wowm text, on the shipped corpus and on proptest-chosen batches of valid mutants (15 edit kinds) where the IR must follow the edit",
@@ -108,7 +108,7 @@ CHECKS.update({
    note=GEN_NOTE + " Only the Vanilla module with the sync flavour is compiled. No automatic shrinking of a failing definition beyond attribution: the replay file carries the tape and the text."),
  "C19": dict(engine="gencheck", category="exploration", design="DESIGN.md §2 C19",
    technique="combinatorial interaction testing of cargo features (seeded greedy strength-3 covering arrays, full powerset in the thorough tier) with cargo check, failing sets reduced feature by feature; plus a differential across feature configurations: one probe program compiled under several feature sets run on the same model-generated frames",
-   text="cargo check of wow_login_messages under all 8 feature sets, of wow_world_base (8 features) and wow_world_messages (9 features incl. the optional dependencies) under sets in which every on/off combination of any three features occurs (16-20 sets each; thorough: the powerset); then the probe built with {vanilla sync}, {tbc tokio}, {wrath async-std}, a seed-drawn set and with every feature reads and re-writes about 15,000 canonical and damaged frames and the outputs are compared with the all-features build.",
+   text="cargo check of wow_login_messages under all 8 feature sets, of wow_world_base (8 features) and wow_world_messages (9 features incl. the optional dependencies) under sets in which every on/off combination of any three features occurs (16-20 sets each; thorough: the powerset); then the probe built with {vanilla sync}, {tbc tokio encryption}, {wrath async-std encryption}, a seed-drawn set and with every feature reads, re-writes and (with encryption) sends through an encrypted write/read cycle about 15,000 canonical, damaged and boundary-size frames; the outputs are compared with the all-features build.",
    note=GEN_NOTE + " Warnings are allowed (the property speaks of errors). Interactions of four or more features are only covered in the thorough tier."),
 })
 
